@@ -40,7 +40,7 @@ ASSUME {FlowSeq[k] : k \in 1..12} = Flows /\ {FabSeq[k] : k \in 1..6} = Fabs
 \* seeded sample, stratified so that EVERY (frame class, flow, regime) triple of the frame family occurs (fabrics cycle) and
 \* EVERY (fabric, rate factor, coarse / fine partition) triple of the scale family occurs; the other dimensions are drawn by TLC
 Reps == IF K < 100 THEN 1 ELSE K \div 40
-BigNs == IF K < 100 THEN {4633} ELSE {4633, 10000}   \* 10000: the documented limit of the default banded Jacobian
+BigNs == IF K < 100 THEN {4633} ELSE {4633, 5000}   \* 5000: above the switch to the banded Jacobian (larger counts need tens of GB)
 ScenInit == /\ nUpd = 0 /\ strain = 0
             /\ st \in (IF K = 0 THEN FrameScens(0) \cup ScaleScens(0)
                         ELSE {[kind |-> "frame", fab |-> FabSeq[((a + b + c + i) % 6) + 1], regime |-> RegSeq[c], flow |-> FlowSeq[b],
